@@ -1,22 +1,24 @@
 #!/bin/sh
 # tools/benign_regress.sh [dir-pattern] : every stored behaviour-preserving refactoring (benign/<id>/refactor-k.patch, written
 # by sub-agents that saw only a property text and a scratch worktree) is applied alone to a scratch copy of /repo/src and
-# ALL 20 quick checks must stay silent (exit 0, no VIOLATION / ANALYSIS-ERROR line). /repo is never touched.
+# ALL 20 quick checks must stay silent (exit 0, no VIOLATION / ANALYSIS-ERROR line). /repo is never touched. 14 in parallel.
 cd "$(dirname "$0")/.." || exit 2
 V=$(pwd)
-rc=0; n=0; bad=0
-for p in benign/${1:-*}/refactor-*.patch; do
-  n=$((n+1))
-  t=/tmp/benigntree_$$; rm -rf $t; mkdir -p $t; cp -r /repo/src $t/src
-  if ! (cd $t && git apply "$V/$p" 2>/dev/null); then echo "$p: does not apply to current /repo (skipped)"; rm -rf $t; continue; fi
-  out=""
-  for i in 01 02 03 04 05 06 07 08 09 10 11 12 13 14 15 16 17 18 19 20; do
-    o=$(VERIF_REPO=$t ./check C$i quick 2>&1); c=$?
-    if [ $c -ne 0 ]; then out="$out
-C$i rc=$c: $(echo "$o" | grep -v '^KNOWN-FINDING\|^    construct\|^VIOLATION\|^C'$i' \[' | head -2 | cut -c1-260)"; fi
-  done
-  if [ -n "$out" ]; then echo "$p: ALARM$out"; rc=1; bad=$((bad+1)); else echo "$p: silent"; fi
-  rm -rf $t
+ls benign/${1:-*}/refactor-*.patch | xargs -P 14 -I{} sh -c '
+p="{}"; V="'"$V"'"
+t=$(mktemp -d /tmp/benigntree_XXXXXX); cp -r /repo/src $t/src
+if ! (cd $t && git apply "$V/$p" 2>/dev/null); then echo "$p: does not apply to current /repo (skipped)"; rm -rf $t; exit 0; fi
+out=""
+for i in 01 02 03 04 05 06 07 08 09 10 11 12 13 14 15 16 17 18 19 20; do
+  o=$(cd $V && VERIF_REPO=$t VERIF_SCRATCH=$t/out ./check C$i quick 2>&1); c=$?
+  if [ $c -ne 0 ]; then out="$out
+  C$i rc=$c: $(echo "$o" | grep -v "^KNOWN-FINDING\|^    construct\|^VIOLATION\|^C$i \[" | head -2 | cut -c1-260)"; fi
 done
+if [ -n "$out" ]; then echo "$p: ALARM$out"; else echo "$p: silent"; fi
+rm -rf $t
+' > /tmp/benign_regress_$$.log 2>&1
+cat /tmp/benign_regress_$$.log | sort
+n=$(grep -c "refactor-" /tmp/benign_regress_$$.log); bad=$(grep -c ": ALARM" /tmp/benign_regress_$$.log)
 echo "benign refactorings: $n tried, $bad with alarms"
-exit $rc
+rm -f /tmp/benign_regress_$$.log
+[ "$bad" = "0" ]
